@@ -63,6 +63,7 @@ func c09Gen(t *rapid.T, r *h.Rec) c09Case {
 	o.Unions, o.Recursion, o.Generics = 0, false, false
 	o.NoIgnoreTag = false
 	o.EmbedNamed = true
+	o.SameNamePromoted = true
 	o.MaxDecls = 7
 	spec := synth.GenTypes(t, o)
 	c := c09Case{Spec: spec, Seed: int64(rapid.IntRange(1, 1<<30).Draw(t, "childSeed")), Checks: childChecks(25, 80)}
@@ -261,7 +262,7 @@ func ignoredKeys(spec *synth.Spec, p *synth.Pkg, d *synth.Decl, depth int) []str
 	}
 	for _, f := range d.Fields {
 		if f.Embedded {
-			if strings.Contains(f.Tag, `json:"`) {
+			if name, _, _ := strings.Cut(tagGet(f.Tag, "json"), ","); name != "" {
 				continue // nested under its own key
 			}
 			if ep, ed := spec.Resolve(p, f.Type); ed != nil && ed.Kind == synth.KStruct {
